@@ -142,7 +142,7 @@ CHECKS = {
     },
     "C23": {
         "units": [
-            {"pkg": "files", "run": "^TestC23(Main|Faults)$", "shards": {"quick": 2, "thorough": 16}},
+            {"pkg": "files", "run": "^TestC23(Main$|Faults$|Witness)", "shards": {"quick": 2, "thorough": 16}},
             # n-th-operation I/O faults inside the migration (vfs shim)
             {"pkg": "files", "run": "^TestC23IOFault", "overlay": "vfs", "tags": ["verifvfs"], "shards": {"quick": 2, "thorough": 16}},
         ],
